@@ -272,23 +272,53 @@ def has_cond(T, fn):
     return any(r["cond"] is not None for r in T["funcs"][fn]["rules"])
 
 
+def alg_names(T):
+    return [n for n in T["rep_names"] if T["reps"][n].sort == "alg"]
+
+
+def named_algs(T, fn, pos):
+    """algorithm classes that some rule of `fn` names specifically (a hint other than the generic Algorithm / Any) at
+    dispatched position `pos`: the table itself says the function admits them"""
+    out = []
+    generic = {i for i, n in enumerate(T["type_names"]) if n in ("Algorithm", "Any")}
+    for r in T["funcs"][fn]["rules"]:
+        if pos < len(r["types"]) and r["types"][pos] not in generic:
+            for n in alg_names(T):
+                if T["bear"][n][r["types"][pos]] and n not in out:
+                    out.append(n)
+    return out
+
+
 def choices(T, fn, full):
-    """lists of rep names: (required parameter choices, optional parameter choices).  Reduced lattice: annotation
-    variants only for functions that have a conditional rule (resolution sees an argument only through its
-    isinstance row and the condition bits)."""
+    """lists of rep names: (required parameter choices, optional parameter choices).
+    full=True: every annotation variant everywhere.  full=False (reduced): annotation variants only for functions that
+    have a conditional rule (resolution sees an argument only through its isinstance row and the condition bits).
+    full='ext': reduced operators, and EVERY Algorithm subclass of the live package in every algorithm position (the
+    lattice of the no-ties theorem).
+    Algorithm positions of the admissible lattice: the documented classes (Appendix B) plus every class that a rule
+    of the function names specifically, so that an algorithm the table knows about cannot be left out."""
     U = T["U"]
     req, opt = U.LATTICE[fn]
-    ops = T["op_all"] if (full or has_cond(T, fn)) else T["op_base"]
+    ext = full == "ext"
+    ops = T["op_all"] if ((full is True) or has_cond(T, fn)) else T["op_base"]
+    algs = alg_names(T)
 
-    def ch(c):
+    def ch(c, pos):
         if c == "OPS":
             return list(ops)
         if c == "OPS+ND":
             return list(ops) + ["ndarray"]
         if isinstance(c, str):
             return [c]
-        return list(c)
-    return [ch(c) for c in req], [ch(c) for (_, c) in opt]
+        c = list(c)
+        if c and all(x in algs for x in c):
+            if ext:
+                return list(algs)
+            for n in named_algs(T, fn, pos):
+                if n not in c:
+                    c.append(n)
+        return c
+    return [ch(c, i) for i, c in enumerate(req)], [ch(c, len(req) + i) for i, (_, c) in enumerate(opt)]
 
 
 def mask(bits):
@@ -382,9 +412,9 @@ def coq_text(T):
         w(f"Definition rules_{fn} : list rule := [")
         w(";\n".join(f"  mkrule {nlist(r['types'])} ({r['prec']})%Z {cond_s(r['condtab'])} {r['orig']}%N" for r in d["rules"]))
         w("].")
-        for full in (True, False):
+        for full in (True, False, "ext"):
             req, opt = choices(T, fn, full)
-            tag = "full" if full else "red"
+            tag = "ext" if full == "ext" else ("full" if full else "red")
             ab = "None" if d["abstract"] is None else f"(Some {plist(d['abstract'])})"
             w(f"Definition spec_{tag}_{fn} : fspec := mkspec \"{fn}\" rules_{fn} {ab}\n  [{'; '.join(plist(c) for c in req)}]\n  [{'; '.join(plist(c) for c in opt)}].")
     w("")
@@ -392,6 +422,8 @@ def coq_text(T):
     w("Definition raw_tables : list (list rawrule * list rule) := [" + "; ".join(f"(raw_{fn}, rules_{fn})" for fn in fns) + "].")
     w("Definition specs_full : list fspec := [" + "; ".join(f"spec_full_{fn}" for fn in fns) + "].")
     w("Definition specs_red : list fspec := [" + "; ".join(f"spec_red_{fn}" for fn in fns) + "].")
+    w("(* every Algorithm subclass of the live package in every algorithm position *)")
+    w("Definition specs_ext : list fspec := [" + "; ".join(f"spec_ext_{fn}" for fn in fns) + "].")
     w("")
     w("(* committed exceptions (KNOWN_FINDINGS.txt / harness/c04_proposed_known.txt), never derived from the run *)")
     ents = []
